@@ -20,6 +20,7 @@ pub mod c12;
 pub mod c13;
 pub mod c14;
 pub mod c16;
+pub mod c17;
 pub mod c19;
 pub mod c20;
 
@@ -123,6 +124,12 @@ pub fn all() -> Vec<Check> {
             props: c16::props,
             describe: c16::describe,
             sweeps: None,
+        },
+        Check {
+            id: "C17",
+            props: c17::props,
+            describe: c17::describe,
+            sweeps: Some(c17::sweeps),
         },
         Check {
         id: "C19",
